@@ -925,3 +925,42 @@ func sharedKeyBytesRule(p *Program, r *Report, rule string) {
 		r.Unresolved(rule, "a []byte field of ExtendedKey that is shared by reference")
 	}
 }
+
+// noHandoutRule: no exported method of the type returns a reference into the receiver's own storage (a memoised object,
+// an internal buffer): the caller may modify or wipe what it was given, and the next call would see that.
+func noHandoutRule(p *Program, r *Report, rule, rel, typeName string) {
+	ef := NewEffects(p)
+	n := 0
+	for _, m := range p.Methods(rel, typeName) {
+		if !ast.IsExported(m.Name()) {
+			continue
+		}
+		hasRef := false
+		for i := 0; i < m.Signature.Results().Len(); i++ {
+			if carriesRefs(m.Signature.Results().At(i).Type()) {
+				hasRef = true
+			}
+		}
+		if !hasRef {
+			continue
+		}
+		n++
+		var leaks []string
+		for i, rs := range ef.returnSummary(m) {
+			for root := range rs {
+				if root.Kind == rkParam && root.Idx == 0 && root.Path != "" && root.Path != "*" {
+					leaks = append(leaks, fmt.Sprintf("result #%d may be %s", i, root))
+				}
+			}
+		}
+		sort.Strings(leaks)
+		how := "every reference it returns is to memory allocated by the call (or to the receiver itself)"
+		if len(leaks) > 0 {
+			how = strings.Join(dedup(leaks), "; ") + " — storage the key keeps using"
+		}
+		r.Add(rule, FnName(m), "method hands out no reference into the key's own storage", m.Pos(), len(leaks) == 0, how)
+	}
+	if n == 0 {
+		r.Unresolved(rule, "exported reference-returning methods of "+typeName)
+	}
+}
